@@ -26,7 +26,8 @@ Record case := mk {
   k_pi : list fl;
   k_rowperm : list nat; k_dist_rowperm : fmat;
   k_colperm : list nat; k_dist_colperm : fmat;
-  k_pairs : list pairinfo
+  k_pairs : list pairinfo;
+  k_prow0 : list fl; k_pcol0 : list fl    (* P(1/2)[0][j] and P(1/2)[j][0] of the substitution model in use *)
 }.
 
 Definition k_rows (c : case) : rows := unrows (k_brows c).
@@ -110,7 +111,12 @@ Definition clauses (c : case) : list bool :=
     (* reordering the columns leaves it unchanged *)
     (let dc := map (map fx) (k_dist_colperm c) in
      fin (k_dist_colperm c) &&
-     forallb (fun a => forallb (fun b => close (at2 dc a b) (at2 d a b)) idx) idx) ].
+     forallb (fun a => forallb (fun b => close (at2 dc a b) (at2 d a b)) idx) idx);
+    (* the model in use is reversible with respect to the frequencies in use: pi_0 P_0j = pi_j P_j0 *)
+    (let pi := map fx (k_pi c) in
+     Nat.eqb (length (k_prow0 c)) 20 && Nat.eqb (length (k_pcol0 c)) 20 &&
+     forallb (fun j => Z.abs (dv (nth 0 pi 0 * fx (nth j (k_prow0 c) (0, 0, 0))) - dv (nth j pi 0 * fx (nth j (k_pcol0 c) (0, 0, 0))))
+                       <=? ONE / 1000000000) (seq 0 20)) ].
 
 Definition spec_check (c : case) : option bool :=
   if k_err c || Nat.ltb (length (k_rows c)) 2 || negb (forallb (fun r => forallb in_alphabet (snd r)) (k_rows c)) then None
